@@ -27,6 +27,12 @@ class C04(C01):
                     " ".join(col[1282:1285]) + " F F"))
         res.append(("corpus", "H d 0 S1 S2 T5:97 F F / S1 S2 T5:98 F F / S1 S2 T5:97 F F"))
         res.append(("corpus", "H d f S1 T5:97 T5:97 T5:97 T5:97 F / S1 T5:97 T5:97 T5:97 T5:97 F / S2 S1 T5:97 T5:97 T5:97 T5:97 F F / S2 S1 T5:97 T5:97 T5:97 T5:97 F F"))
+        # colliding leaves under two to four levels of otherwise identical parents, split over the trees of one history
+        for d in (2, 3, 4):
+            for a, b in (("97", "98"), ("97", ""), ("97.98", "98.97")):
+                chain = lambda x: " ".join(["S%d" % (2 + i) for i in range(d)] + ["T5:" + x] + ["F"] * d)
+                for m in ("0", "3", "f"):
+                    res.append(("corpus", "H d %s S1 %s F / S1 %s F / S1 %s F" % (m, chain(a), chain(b), chain(a))))
         small = G.enum_balanced(5 if tier == "quick" else 6)
         masks = ["f", "0"] if tier == "quick" else ["f", "0", "3"]
         for a in small:
